@@ -223,7 +223,13 @@ def finish(ctx, level, explanation, checker_cmd, trusted_base, exhaustive=False)
     os.makedirs(os.path.join(ROOT, "replays"), exist_ok=True)
     new = []
     seen_known = {}
+    uniq = {}
     for v in ctx.violations:
+        if v.key in uniq:
+            uniq[v.key].payload["occurrences"] = uniq[v.key].payload.get("occurrences", 1) + 1
+        else:
+            uniq[v.key] = v
+    for v in uniq.values():
         hit = None
         for k in known:
             if fnmatch.fnmatchcase(v.key, k["key"]):
